@@ -28,20 +28,11 @@ Definition valid_tsig_request (ss : list (signer K)) (m : bytes) (now : N) : Pro
     t_alg (v_tsig v) = alg_labels (s_alg s) /\
     t_mac (v_tsig v) = mac (s_alg s) (s_key s) (tbs None true v) /\
     (out_len (s_alg s) <= length (t_mac (v_tsig v)))%nat /\
-    t_fudge (v_tsig v) <= t_time (v_tsig v) /\
+    (* the window start saturates at 0 (subtraction on N is truncated), as in the code *)
     t_time (v_tsig v) - t_fudge (v_tsig v) <= now < t_time (v_tsig v) + t_fudge (v_tsig v).
 
-(* the class of the known finding F7: a MAC that verifies, then `time - fudge` underflows *)
-Definition underflow_request (ss : list (signer K)) (m : bytes) : Prop :=
-  exists v s,
-    frame m = FSigned v /\ h_qd (v_hdr v) = 1 /\ selects ss (t_name (v_tsig v)) s /\
-    t_alg (v_tsig v) = alg_labels (s_alg s) /\
-    (out_len (s_alg s) <= length (t_mac (v_tsig v)))%nat /\
-    t_mac (v_tsig v) = mac (s_alg s) (s_key s) (tbs None true v) /\
-    t_time (v_tsig v) < t_fudge (v_tsig v).
-
 End Spec.
-Arguments selects {K}. Arguments valid_tsig_request {K}. Arguments underflow_request {K}.
+Arguments selects {K}. Arguments valid_tsig_request {K}.
 
 (* ------------------------------------------------------------------ *)
 (* small facts                                                         *)
@@ -118,7 +109,6 @@ Lemma verify_view_ok s v prev first mc tm lo hi :
   t_alg (v_tsig v) = alg_labels (s_alg s) /\
   (out_len (s_alg s) <= length (t_mac (v_tsig v)))%nat /\
   t_mac (v_tsig v) = mac (s_alg s) (s_key s) (tbs prev first v) /\
-  t_fudge (v_tsig v) <= t_time (v_tsig v) /\
   mc = t_mac (v_tsig v) /\ tm = t_time (v_tsig v) /\
   lo = t_time (v_tsig v) - t_fudge (v_tsig v) /\ hi = t_time (v_tsig v) + t_fudge (v_tsig v).
 Proof.
@@ -141,52 +131,17 @@ Proof.
   destruct (bytes_eqb (t_mac (v_tsig v)) (mac (s_alg s) (s_key s) (tbs prev first v))) eqn:Em; cbn [negb].
   2:{ split; [discriminate|]. intros (_ & _ & _ & H & _). apply bytes_eqb_eq in H. congruence. }
   apply bytes_eqb_eq in Em.
-  destruct (t_time (v_tsig v) <? t_fudge (v_tsig v)) eqn:Et.
-  { split; [discriminate|]. intros (_ & _ & _ & _ & H & _). apply N.ltb_lt in Et. lia. }
-  apply N.ltb_ge in Et.
   split.
   - intros [= <- <- <- <-]. repeat split; auto.
-  - intros (_ & _ & _ & _ & _ & -> & -> & -> & ->). reflexivity.
+  - intros (_ & _ & _ & _ & -> & -> & -> & ->). reflexivity.
 Qed.
 
-Lemma verify_view_underflow s v prev first :
-  verify_view mac s v prev first = VUnderflow <->
-  lower_name (t_name (v_tsig v)) = lower_name (s_name s) /\
-  t_alg (v_tsig v) = alg_labels (s_alg s) /\
-  (out_len (s_alg s) <= length (t_mac (v_tsig v)))%nat /\
-  t_mac (v_tsig v) = mac (s_alg s) (s_key s) (tbs prev first v) /\
-  t_time (v_tsig v) < t_fudge (v_tsig v).
-Proof.
-  unfold verify_view.
-  destruct (name_eqb (t_name (v_tsig v)) (s_name s)) eqn:En; cbn [negb].
-  2:{ split; [discriminate|]. intros (H & _). apply name_eqb_neq in En. contradiction. }
-  apply name_eqb_eq in En.
-  destruct (alg_of (t_alg (v_tsig v))) as [a|] eqn:Ea.
-  2:{ split; [discriminate|]. intros (_ & H & _). rewrite H, alg_of_labels in Ea. discriminate. }
-  apply alg_of_some in Ea.
-  destruct (alg_eqb a (s_alg s)) eqn:Eq; cbn [negb].
-  2:{ split; [discriminate|]. intros (_ & H & _). rewrite H in Ea.
-      assert (a = s_alg s) as ->.
-      { destruct a, (s_alg s); vm_compute in Ea; congruence. }
-      destruct (s_alg s); discriminate. }
-  apply alg_eqb_eq in Eq. subst a.
-  destruct (length (t_mac (v_tsig v)) <? out_len (s_alg s))%nat eqn:El.
-  { split; [discriminate|]. intros (_ & _ & H & _). apply Nat.ltb_lt in El. lia. }
-  apply Nat.ltb_ge in El.
-  destruct (bytes_eqb (t_mac (v_tsig v)) (mac (s_alg s) (s_key s) (tbs prev first v))) eqn:Em; cbn [negb].
-  2:{ split; [discriminate|]. intros (_ & _ & _ & H & _). apply bytes_eqb_eq in H. congruence. }
-  apply bytes_eqb_eq in Em.
-  destruct (t_time (v_tsig v) <? t_fudge (v_tsig v)) eqn:Et.
-  - apply N.ltb_lt in Et. split; [|reflexivity]. intros _. repeat split; auto.
-  - apply N.ltb_ge in Et. split; [discriminate|]. intros (_ & _ & _ & _ & H). lia.
-Qed.
-
-Lemma verify_view_never_dbg s v prev first : verify_view mac s v prev first <> VDbgPanic.
+Lemma verify_view_never_panics s v prev first : verify_view mac s v prev first <> VPanic.
 Proof.
   unfold verify_view.
   destruct (negb _); [discriminate|]. destruct (alg_of _); [|discriminate].
   destruct (negb _); [discriminate|]. destruct (_ <? _)%nat; [discriminate|].
-  destruct (negb _); [discriminate|]. destruct (_ <? _); discriminate.
+  destruct (negb _); discriminate.
 Qed.
 
 Lemma in_range_spec lo hi now : in_range lo hi now = true <-> lo <= now < hi.
@@ -202,7 +157,6 @@ Definition view_valid (ss : list (signer K)) (v : view) (now : N) : Prop :=
     t_alg (v_tsig v) = alg_labels (s_alg s) /\
     t_mac (v_tsig v) = mac (s_alg s) (s_key s) (tbs None true v) /\
     (out_len (s_alg s) <= length (t_mac (v_tsig v)))%nat /\
-    t_fudge (v_tsig v) <= t_time (v_tsig v) /\
     t_time (v_tsig v) - t_fudge (v_tsig v) <= now < t_time (v_tsig v) + t_fudge (v_tsig v).
 
 Lemma authorized_tsig_allow ss v now :
@@ -213,9 +167,9 @@ Proof.
   2:{ split; [intros (cx & H); discriminate|].
       intros (s & Hs & _). exfalso. eapply find_signer_none; eauto. }
   pose proof Ef as Hsel. apply find_signer_selects in Hsel.
-  destruct (verify_view mac s v None true) as [| | | | | |mc tm lo hi] eqn:Ev.
+  destruct (verify_view mac s v None true) as [| | | | |mc tm lo hi] eqn:Ev.
   all: try (split; [intros (cx & H); discriminate|];
-            intros (s' & Hs' & Ha & Hm & Hl & Hu & Hr);
+            intros (s' & Hs' & Ha & Hm & Hl & Hr);
             pose proof (selects_unique _ _ _ _ _ Hsel Hs') as <-;
             assert (Hok : verify_view mac s v None true =
                       VOk (t_mac (v_tsig v)) (t_time (v_tsig v))
@@ -223,46 +177,22 @@ Proof.
               by (apply verify_view_ok; repeat split; auto;
                   destruct Hsel as (? & ? & _ & Hn & _); now rewrite Hn);
             congruence).
-  apply verify_view_ok in Ev. destruct Ev as (Hn & Ha & Hl & Hm & Hu & -> & -> & -> & ->).
+  apply verify_view_ok in Ev. destruct Ev as (Hn & Ha & Hl & Hm & -> & -> & -> & ->).
   destruct (in_range _ _ now) eqn:Er.
   - apply in_range_spec in Er. split; [intros _|eauto]. exists s. repeat split; auto; lia.
   - split; [intros (cx & H); discriminate|].
-    intros (s' & Hs' & _ & _ & _ & _ & Hr).
+    intros (s' & Hs' & _ & _ & _ & Hr).
     assert (in_range (t_time (v_tsig v) - t_fudge (v_tsig v)) (t_time (v_tsig v) + t_fudge (v_tsig v)) now = true)
       by now apply in_range_spec.
     congruence.
 Qed.
 
-Lemma authorized_tsig_panic ss v now :
-  authorized_tsig mac ss v now = APanic <->
-  exists s, selects ss (t_name (v_tsig v)) s /\
-    t_alg (v_tsig v) = alg_labels (s_alg s) /\
-    (out_len (s_alg s) <= length (t_mac (v_tsig v)))%nat /\
-    t_mac (v_tsig v) = mac (s_alg s) (s_key s) (tbs None true v) /\
-    t_time (v_tsig v) < t_fudge (v_tsig v).
+Lemma authorized_tsig_no_panic ss v now : authorized_tsig mac ss v now <> APanic.
 Proof.
-  unfold authorized_tsig.
-  destruct (find_signer ss (t_name (v_tsig v))) as [s|] eqn:Ef.
-  2:{ split; [discriminate|]. intros (s & Hs & _). exfalso. eapply find_signer_none; eauto. }
-  pose proof Ef as Hsel. apply find_signer_selects in Hsel.
-  destruct (verify_view mac s v None true) as [| | | | | |mc tm lo hi] eqn:Ev.
-  all: try (split; [discriminate|];
-            intros (s' & Hs' & Ha & Hl & Hm & Hu);
-            pose proof (selects_unique _ _ _ _ _ Hsel Hs') as <-;
-            assert (Hok : verify_view mac s v None true = VUnderflow)
-              by (apply verify_view_underflow; repeat split; auto;
-                  destruct Hsel as (? & ? & _ & Hn & _); now rewrite Hn);
-            congruence).
-  - exfalso. eapply verify_view_never_dbg; eauto.
-  - apply verify_view_underflow in Ev. destruct Ev as (Hn & Ha & Hl & Hm & Hu).
-    split; [intros _|reflexivity]. exists s. repeat split; auto.
-  - destruct (in_range lo hi now); (split; [discriminate|]).
-    all: intros (s' & Hs' & Ha & Hl & Hm & Hu);
-         pose proof (selects_unique _ _ _ _ _ Hsel Hs') as <-;
-         assert (Hok : verify_view mac s v None true = VUnderflow)
-           by (apply verify_view_underflow; repeat split; auto;
-               destruct Hsel as (? & ? & _ & Hn & _); now rewrite Hn);
-         congruence.
+  unfold authorized_tsig. destruct (find_signer _ _) as [s|]; [|discriminate].
+  destruct (verify_view mac s v None true) eqn:Ev; try discriminate.
+  - exfalso. eapply verify_view_never_panics; eauto.
+  - destruct (in_range _ _ _); discriminate.
 Qed.
 
 (* a rejection is REFUSED or NOTAUTH *)
@@ -283,10 +213,9 @@ Lemma parse_request_signed deep m v :
 Proof.
   unfold parse_request. destruct deep; cbn [negb].
   2:{ split; [discriminate|intros (? & _); discriminate]. }
-  destruct (frame m) as [|h| |v'] eqn:Ef.
+  destruct (frame m) as [|h|v'] eqn:Ef.
   - split; [discriminate|intros (_ & ? & _); discriminate].
   - destruct (h_qd h =? 1); (split; [discriminate|intros (_ & ? & _); discriminate]).
-  - split; [discriminate|intros (_ & ? & _); discriminate].
   - destruct (h_qd (v_hdr v') =? 1) eqn:Eq.
     + apply N.eqb_eq in Eq. split; [intros [= <-]; auto|intros (_ & [= <-] & _); reflexivity].
     + apply N.eqb_neq in Eq. split; [discriminate|intros (_ & [= <-] & ?); contradiction].
@@ -410,38 +339,16 @@ Proof.
   intros H. right. eapply authorized_tsig_reject; eauto.
 Qed.
 
-Lemma authorize_update_panic c deep m now :
-  authorize_update mac c (parse_request deep m) now = APanic <->
-  allow_update c = true /\ deep = true /\ underflow_request mac (signers c) m.
+Lemma authorize_update_no_panic c r now : authorize_update mac c r now <> APanic.
 Proof.
-  unfold authorize_update, underflow_request. destruct (allow_update c); cbn [negb].
-  2:{ split; [discriminate|intros (? & _); discriminate]. }
-  destruct (parse_request deep m) as [| |v] eqn:Ep.
-  1,2: split; [discriminate|];
-       intros (_ & -> & v & s & Hf & Hq & _);
-       assert (parse_request true m = QSigned v) by (apply parse_request_signed; auto); congruence.
-  apply parse_request_signed in Ep. destruct Ep as (-> & Hf & Hq).
-  rewrite authorized_tsig_panic. split.
-  - intros (s & Hs & Ha & Hl & Hm & Hu). repeat split; auto. exists v, s. repeat split; auto.
-  - intros (_ & _ & v' & s & Hf' & _ & Hs & Ha & Hl & Hm & Hu).
-    assert (v' = v) by congruence. subst v'. exists s. repeat split; auto.
+  unfold authorize_update. destruct (negb _); [discriminate|].
+  destruct r; try discriminate. apply authorized_tsig_no_panic.
 Qed.
 
-Lemma authorize_axfr_panic c deep m now :
-  authorize_axfr mac c (parse_request deep m) now = APanic <->
-  axfr c = AllowSigned /\ deep = true /\ underflow_request mac (signers c) m.
+Lemma authorize_axfr_no_panic c r now : authorize_axfr mac c r now <> APanic.
 Proof.
-  unfold authorize_axfr, underflow_request. destruct (axfr c).
-  1,2: split; [discriminate|intros (? & _); discriminate].
-  destruct (parse_request deep m) as [| |v] eqn:Ep.
-  1,2: split; [discriminate|];
-       intros (_ & -> & v & s & Hf & Hq & _);
-       assert (parse_request true m = QSigned v) by (apply parse_request_signed; auto); congruence.
-  apply parse_request_signed in Ep. destruct Ep as (-> & Hf & Hq).
-  rewrite authorized_tsig_panic. split.
-  - intros (s & Hs & Ha & Hl & Hm & Hu). repeat split; auto. exists v, s. repeat split; auto.
-  - intros (_ & _ & v' & s & Hf' & _ & Hs & Ha & Hl & Hm & Hu).
-    assert (v' = v) by congruence. subst v'. exists s. repeat split; auto.
+  unfold authorize_axfr. destruct (axfr c); try discriminate.
+  destruct r; try discriminate. apply authorized_tsig_no_panic.
 Qed.
 
 End Outcome.
@@ -482,12 +389,11 @@ Lemma reply_roundtrip (s cs : signer K) reqmac err rid now r rv t reqtime :
   sign_ctx mac (CSigned s reqmac err) rid now (unsigned_of rv) = Some t ->
   tsig_agrees t (v_tsig rv) ->
   lower_name (s_name cs) = lower_name (s_name s) -> s_alg cs = s_alg s -> s_key cs = s_key s ->
-  s_fudge s <= now ->
   now - s_fudge s <= reqtime < now + s_fudge s ->
   client_verify mac true (mkVerifier cs reqmac 0 reqtime) r =
     CRAccept (mkVerifier cs (t_mac t) now reqtime).
 Proof.
-  intros Hf Hid Hs Hag Hn Ha Hk Hfu Hr.
+  intros Hf Hid Hs Hag Hn Ha Hk Hr.
   cbn [sign_ctx] in Hs. injection Hs as <-.
   set (st := stub rid now s err) in *.
   destruct Hag as (Hn' & Ha' & Ht' & Hf' & Hm' & Ho' & He' & Hoth').
